@@ -5,6 +5,9 @@
 (* trace validators alike).                                                *)
 (* type descriptors:  <<"Short">>, <<"FixedPoint", "Integer", 5>>,         *)
 (*                    <<"PrefixedArray", "VarInt", elemType>>              *)
+(*                    <<"Position", layout>>  - the one context-dependent  *)
+(*                    leaf: x:26|y:12|z:26 ("XYZ", up to 1.13.2) or        *)
+(*                    x:26|z:26|y:12 ("XZY", from 1.14), value <<x, y, z>> *)
 (***************************************************************************)
 EXTENDS Wire, TLC, Json
 
@@ -13,6 +16,18 @@ Width(t) == CASE t = "Byte" -> 1 [] t = "UnsignedByte" -> 1 [] t = "Short" -> 2
               [] t = "UnsignedLong" -> 8
 Signed(t) == t \in {"Byte", "Short", "Integer", "Long"}
 IntTypes == {"Byte", "UnsignedByte", "Short", "UnsignedShort", "Integer", "Long", "UnsignedLong"}
+
+RECURSIVE EncPow2(_)
+EncPow2(n) == IF n = 0 THEN 1 ELSE 2 * EncPow2(n - 1)
+EncTwoC(n, w) == NatBits(n % EncPow2(w), w)            \* two's complement of n in w <= 30 bits
+EncPosition(lay, v) ==
+  BitsToBytes(IF lay = "XYZ" THEN EncTwoC(v[1], 26) \o EncTwoC(v[2], 12) \o EncTwoC(v[3], 26)
+                             ELSE EncTwoC(v[1], 26) \o EncTwoC(v[3], 26) \o EncTwoC(v[2], 12))
+\* a type with the layout placeholder "L" instantiated
+RECURSIVE SubstLayout(_, _)
+SubstLayout(ty, lay) == IF ty[1] = "Position" THEN <<"Position", lay>>
+                        ELSE IF ty[1] = "PrefixedArray" THEN <<"PrefixedArray", ty[2], SubstLayout(ty[3], lay)>>
+                        ELSE ty
 
 RECURSIVE Enc(_, _)
 Enc(ty, v) ==
@@ -29,6 +44,7 @@ Enc(ty, v) ==
     [] t = "TrailingByteArray"   -> EncTrailing(v)
     [] t = "Raw"                 -> v             \* opaque pre-encoded bytes (NBT blobs)
     [] t = "UUID"                -> v.by          \* v = [by |-> 16 bytes, txt |-> the 8-4-4-4-12 text]
+    [] t = "Position"            -> EncPosition(ty[2], v)
     [] t = "Angle"               -> AngleModel(v)
     [] t = "FixedPoint"          -> FixedModel(Width(ty[2]), v[1], v[2])
     [] t = "PrefixedArray"       ->
